@@ -50,9 +50,9 @@ INTERVAL_AXIOMS = [
     'Uint63.mod_spec', 'Uint63.mul_spec', 'Uint63.mulc_spec', 'Uint63.of_to_Z', 'Uint63.sub_spec', 'Uint63.subc_def_spec',
     'Uint63.subcarryc_def_spec', 'Uint63.tail0_spec']
 # the only theorems that may depend on Interval's computation (everything else: stdlib real axioms at most)
-INTERVAL_THEOREMS = ('schwefel', 'alpine2', 'styblinski_tang', 'deb2')
+INTERVAL_THEOREMS = ('schwefel', 'alpine2')
 
-ENC_HEADER = r'''From Coq Require Import Reals List.
+ENC_HEADER = r'''From Coq Require Import Reals List Lra.
 From Interval Require Import Tactic.
 From OV Require Import Base.RExprBench Gen.Bench.
 Import ListNotations.
@@ -62,8 +62,8 @@ Ltac bdef_solve :=
   | |- _ /\ _ => split
   | |- True => exact I
   | |- powR_def _ _ => left; interval
-  | |- _ <> _ => first [ interval | apply Rgt_not_eq; interval | apply Rlt_not_eq; interval ]
-  | |- _ <= _ => interval
+  | |- _ <> _ => first [ lra | interval | apply Rgt_not_eq; interval | apply Rlt_not_eq; interval ]
+  | |- _ <= _ => first [ lra | interval ]
   end.
 Ltac enc_solve :=
   repeat match goal with |- context [bval ?c _ _ _] => progress unfold c end;
@@ -110,7 +110,7 @@ def run(ctx):
     ctx.trust('translator T3 (translate/t3_bench.py): benchmark.py bodies and docstring formulas -> bexpr terms '
               '(validated each run: float evaluation of code_f against the implementation at every sampled point)',
               'harness/c17.py: hand-written scalar references of the 17 docstring formulas',
-              'Coq Interval 4 (primitive floats / Uint63 spec axioms) for the Schwefel, Alpine2, Styblinski-Tang bounds and the enclosures')
+              'Coq Interval 4 (primitive floats / Uint63 spec axioms) for the Schwefel and Alpine2 bounds and the enclosures')
     # 1. regenerate code_f / doc_f from the current source
     text, items, errors, trees = regenerate()
     for er in errors:
